@@ -27,6 +27,9 @@ type lcall struct {
 	Events []ref.AgentEvent
 	Parent int // index of the call whose handler issued this one, or -1
 	Done   bool
+	// Panicked: the handler panicked at the first event of this call and the panic came through the call (mode 5): the
+	// call had taken effect; of its events only that first one was seen
+	Panicked bool
 }
 
 type c14Program struct {
@@ -103,6 +106,11 @@ func c14Exec(p c14Program) (*sched.Result, []lcall) {
 						if len(calls[ci].Events) == 1 {
 							do(th, agentOp{Kind: "start", ID: 2, T: 4}, ci)
 						}
+					case 5: // the handler panics at the first time-out of a call; the caller of that call recovers
+						if ev.Kind == ref.EvTimeout && len(calls[ci].Events) == 1 {
+							calls[ci].Panicked = true
+							panic(errC13HandlerPanic)
+						}
 					}
 				}
 			}
@@ -123,7 +131,14 @@ func c14Exec(p c14Program) (*sched.Result, []lcall) {
 			case "process":
 				err = a.Process(&stun.Message{TransactionID: id, Type: stun.NewType(stun.MethodBinding, stun.MessageClass(op.H&3))})
 			case "collect":
-				err = a.Collect(agentTime(op.T))
+				func() {
+					defer func() {
+						if rec := recover(); rec != nil && rec != errC13HandlerPanic {
+							panic(rec)
+						}
+					}()
+					err = a.Collect(agentTime(op.T))
+				}()
 			case "sethandler":
 				err = a.SetHandler(hs[op.H])
 			case "close":
@@ -231,7 +246,21 @@ func c14Linearizable(p c14Program, calls []lcall) bool {
 			case "close":
 				ret, evs = mm.Close()
 			}
-			if ret != calls[i].Result || !sameEvents(evs, calls[i].Events) {
+			if calls[i].Panicked {
+				// (what it returned is the panic; of what it would have reported, the first event was seen)
+				okEv := len(calls[i].Events) == 1
+				if okEv {
+					okEv = false
+					for _, e := range evs {
+						if e == calls[i].Events[0] {
+							okEv = true
+						}
+					}
+				}
+				if !okEv {
+					continue
+				}
+			} else if ret != calls[i].Result || !sameEvents(evs, calls[i].Events) {
 				continue
 			}
 			used[i] = true
@@ -431,6 +460,22 @@ func init() {
 				{{Kind: "start", ID: 4 + 50, T: 1}, {Kind: "stop", ID: 4 + 102}},
 			} {
 				explored(c14Program{Init: 104, Mode: 0, Threads: [][]agentOp{{{Kind: "collect", T: 5}}, other}})
+			}
+			// a handler that panics at the first time-out of a Collect (its caller recovers) while another thread registers
+			// one of the ids of that batch again: the Collect had taken effect before it ran the handler, and that is all
+			for _, other := range [][]agentOp{
+				{{Kind: "start", ID: 1, T: 6}},
+				{{Kind: "start", ID: 1, T: 6}, {Kind: "stop", ID: 1}},
+				{{Kind: "start", ID: 0, T: 6}, {Kind: "start", ID: 1, T: 6}},
+			} {
+				for _, first := range [][]agentOp{
+					{{Kind: "collect", T: 5}, {Kind: "collect", T: 5}},
+					{{Kind: "collect", T: 5}, {Kind: "stop", ID: 1}},
+					{{Kind: "collect", T: 5}, {Kind: "collect", T: 5}, {Kind: "close"}},
+				} {
+					explored(c14Program{Init: 2, Mode: 5, Threads: [][]agentOp{first, other}})
+					explored(c14Program{Init: 3, Mode: 5, Threads: [][]agentOp{first, other}})
+				}
 			}
 			// tables of several thousand transactions (where an implementation would be tempted to give the lock away in
 			// the middle of a pass): Collect is still one atomic step against Stop / Process / Start of ids it has seen
